@@ -59,7 +59,15 @@ Inductive case :=
 | ZatDiv (a d : Z) (o : outcome Z unit)
 | ZatDivRem (a d : Z) (o : outcome (Z * Z) unit)
 | ZatNeg (z : Z) (o : outcome Z unit)
-| ZatTryFromZb (a : Z) (o : res).
+| ZatTryFromZb (a : Z) (o : res)
+(* const fn constructors (assert! = Panic outside the range) and sign predicates *)
+| ZbConstFromI64 (x : Z) (o : outcome Z unit)
+| ZbConstFromU64 (x : Z) (o : outcome Z unit)
+| ZatConstFromU64 (x : Z) (o : outcome Z unit)
+| ZbIsPositive (a : Z) (o : bool)
+| ZbIsNegative (a : Z) (o : bool)
+| ZatIsZero (z : Z) (o : bool)
+| ZatIsPositive (z : Z) (o : bool).
 
 Definition okz (o : option Z) : outcome (option Z) unit := Ok o.
 
@@ -107,6 +115,13 @@ Definition run_case (c : case) : bool :=
   | ZatDivRem a d o => outcome_eqb (pair_eqb Z.eqb Z.eqb) unit_eqb (Ok (zat_div_with_remainder a d)) o
   | ZatNeg z o => nres_eqb (zat_neg z) o
   | ZatTryFromZb a o => res_eqb (zat_try_from_zb a) o
+  | ZbConstFromI64 x o => nres_eqb (zb_const_from_i64 x) o
+  | ZbConstFromU64 x o => nres_eqb (zb_const_from_u64 x) o
+  | ZatConstFromU64 x o => nres_eqb (zat_const_from_u64 x) o
+  | ZbIsPositive a o => Bool.eqb (zb_is_positive a) o
+  | ZbIsNegative a o => Bool.eqb (zb_is_negative a) o
+  | ZatIsZero z o => Bool.eqb (zat_is_zero z) o
+  | ZatIsPositive z o => Bool.eqb (zat_is_positive z) o
   end.
 
 (** The property, evaluated on the implementation's outcome. *)
@@ -167,6 +182,13 @@ Definition prop_case (c : case) : bool :=
       end
   | ZatNeg z o => nres_eqb (Ok (- z)) o && valid_zbb (- z)
   | ZatTryFromZb a o => res_eqb (ctor_spec 0 M a) o
+  | ZbConstFromI64 x o => nres_eqb (const_spec (- M) M x) o
+  | ZbConstFromU64 x o => nres_eqb (const_spec 0 M x) o
+  | ZatConstFromU64 x o => nres_eqb (const_spec 0 M x) o
+  | ZbIsPositive a o => Bool.eqb (0 <? a) o
+  | ZbIsNegative a o => Bool.eqb (a <? 0) o
+  | ZatIsZero z o => Bool.eqb (z =? 0) o
+  | ZatIsPositive z o => Bool.eqb (0 <? z) o
   end.
 
 (** Known-finding classes (0 = none). None is open for C09: the one defect found
@@ -198,4 +220,8 @@ Definition tag_case (c : case) : N :=
   | ZatSum _ o => 350 + ofailed o | ZatSumRep _ _ o => 400 + ofailed o | ZbSumRep _ _ o => 410 + ofailed o | ZatDiv _ _ o => 360 + failed o
   | ZatDivRem _ _ o => 370 + failed o | ZatNeg _ o => 380 + failed o
   | ZatTryFromZb _ o => 390 + failed o
+  | ZbConstFromI64 _ o => 420 + failed o | ZbConstFromU64 _ o => 430 + failed o
+  | ZatConstFromU64 _ o => 440 + failed o
+  | ZbIsPositive _ o => 450 + (if o then 1 else 0) | ZbIsNegative _ o => 460 + (if o then 1 else 0)
+  | ZatIsZero _ o => 470 + (if o then 1 else 0) | ZatIsPositive _ o => 480 + (if o then 1 else 0)
   end)%N.
